@@ -178,7 +178,23 @@ func (c *Ctx) liftSite(site ssa.Instruction, root *ssa.Function) ssa.Instruction
 		if f == root {
 			return site
 		}
-		if !isNewHelper(f) || f.Parent() != nil {
+		if f.Parent() != nil {
+			// a closure: the place where its enclosing function calls it (when it is called in one place)
+			var calls []ssa.Instruction
+			allInstrs(f.Parent(), func(ins ssa.Instruction) {
+				if ci, ok := ins.(ssa.CallInstruction); ok {
+					if mc, ok := ci.Common().Value.(*ssa.MakeClosure); ok && mc.Fn == ssa.Value(f) {
+						calls = append(calls, ins)
+					}
+				}
+			})
+			if len(calls) != 1 {
+				return nil
+			}
+			site = calls[0]
+			continue
+		}
+		if !isNewHelper(f) {
 			return nil
 		}
 		cs := c.familyCallSites(f)
